@@ -34,6 +34,8 @@ func VH_c10_teardown() {
 	}
 	var subs, binds []ref
 	id := uint64(0)
+	// entity [1] of a peer may hold a second, adjacent registry entry (its Measurement client on F2)
+	second := verifrt.Concrete(verifrt.Bool("pre.second-subscription-of-entity-1"))
 	for p := 0; p < 2; p++ {
 		r, _, dev := w.peer(p)
 		for _, e := range [][]uint{{1}, {1, 1}} {
@@ -42,6 +44,12 @@ func VH_c10_teardown() {
 				id++
 				sm.subscriptionEntries = append(sm.subscriptionEntries, &api.SubscriptionEntry{Id: id, ServerFeature: w.F1, ClientFeature: cf})
 				subs = append(subs, ref{p, vhEntKey(NewAddressEntityType(e)), cf})
+				if second && len(e) == 1 {
+					mc := r.FeatureByAddress(vhAddr(dev, e, 3))
+					id++
+					sm.subscriptionEntries = append(sm.subscriptionEntries, &api.SubscriptionEntry{Id: id, ServerFeature: w.F2, ClientFeature: mc})
+					subs = append(subs, ref{p, vhEntKey(NewAddressEntityType(e)), mc})
+				}
 			}
 			if verifrt.Concrete(verifrt.Bool(fmt.Sprintf("pre.cache.%s%v", dev, e))) {
 				f3.subscriptions = append(f3.subscriptions, vhAddr(dev, e, 2))
@@ -214,7 +222,7 @@ func VH_c10_teardown() {
 	}
 	nB := 0
 	for _, s := range subs {
-		if s.peer == 1 {
+		if s.peer == 1 && s.cf.Type() == model.FeatureTypeTypeLoadControl { // (the data change below is on F1)
 			nB++
 		}
 	}
